@@ -21,6 +21,8 @@ type Term struct {
 	// static knowledge about integer values: 0 <= v < 2^Bits (Bits > 0) and v is a multiple of 2^Low
 	Bits int
 	Low  int
+	// statically known run-time type information (package reflect on a static type): *rtype, *rfield, *rvalue
+	Static interface{}
 }
 
 var stdSizes = types.SizesFor("gc", "amd64")
@@ -138,7 +140,22 @@ func eq(a, b string) string {
 	if a == b {
 		return "true"
 	}
+	if isDecimal(a) && isDecimal(b) {
+		return "false" // two different numerals
+	}
 	return "(= " + a + " " + b + ")"
+}
+
+func isDecimal(s string) bool {
+	if s == "" || len(s) > 20 {
+		return false
+	}
+	for _, c := range s {
+		if c < '0' || c > '9' {
+			return false
+		}
+	}
+	return true
 }
 
 // ---------------------------------------------------------------------------
@@ -161,6 +178,7 @@ type structInfo struct {
 }
 
 type Registry struct {
+	curDefs    map[string]string // definitions of the named terms (t_n) of the function being verified
 	decls      []string          // datatype declarations in dependency order
 	sorts      map[string]string // type key -> sort
 	structs    map[string]*structInfo
@@ -554,12 +572,61 @@ func (r *Registry) fieldOf(t Term, name string) (Term, bool) {
 	if si == nil {
 		return Term{}, false
 	}
-	for _, f := range si.Fields {
+	for i, f := range si.Fields {
 		if f.Name == name {
+			if v, ok := r.knownField(t.S, si.Ctor, i, len(si.Fields), 0); ok {
+				return Term{S: v, T: f.Type}, true
+			}
 			return Term{S: "(" + f.Sel + " " + t.S + ")", T: f.Type}, true
 		}
 	}
 	return Term{}, false
+}
+
+// resolve follows the definitions of named terms (t_n = term) of the function being verified.
+func (r *Registry) resolve(s string) string {
+	for i := 0; i < 64; i++ {
+		d, ok := r.curDefs[s]
+		if !ok {
+			return s
+		}
+		s = d
+	}
+	return s
+}
+
+// knownField: component i of a struct term whose definition is a constructor application (or an ite of such):
+// selections are resolved when the term is built instead of being left to the solver, which keeps fields that a long
+// chain of updates never touched identical to the original.
+func (r *Registry) knownField(s, ctor string, i, n, depth int) (string, bool) {
+	if depth > 80 {
+		return "", false
+	}
+	s = r.resolve(s)
+	pre := "(" + ctor + " "
+	if strings.HasPrefix(s, pre) && strings.HasSuffix(s, ")") {
+		args := splitSexp(s[len(pre) : len(s)-1])
+		if len(args) == n {
+			return args[i], true
+		}
+		return "", false
+	}
+	if strings.HasPrefix(s, "(ite ") && strings.HasSuffix(s, ")") {
+		parts := splitSexp(s[5 : len(s)-1])
+		if len(parts) == 3 {
+			a, okA := r.knownField(parts[1], ctor, i, n, depth+1)
+			b, okB := r.knownField(parts[2], ctor, i, n, depth+1)
+			if okA && okB {
+				if a == b {
+					return a, true
+				}
+				if len(a)+len(b) < 400 {
+					return "(ite " + parts[0] + " " + a + " " + b + ")", true
+				}
+			}
+		}
+	}
+	return "", false
 }
 
 // withField returns the struct value t with field name replaced by v.
@@ -567,10 +634,12 @@ func (r *Registry) withField(t Term, name string, v string) Term {
 	si := r.StructInfo(t.T)
 	var fs []string
 	found := false
-	for _, f := range si.Fields {
+	for i, f := range si.Fields {
 		if f.Name == name {
 			fs = append(fs, v)
 			found = true
+		} else if kv, ok := r.knownField(t.S, si.Ctor, i, len(si.Fields), 0); ok && len(kv) < 300 {
+			fs = append(fs, kv)
 		} else {
 			fs = append(fs, "("+f.Sel+" "+t.S+")")
 		}
@@ -584,10 +653,16 @@ func (r *Registry) withField(t Term, name string, v string) Term {
 func (r *Registry) deref(t Term) Term {
 	p := t.T.Underlying().(*types.Pointer)
 	s := r.SortOf(t.T)
-	// simplify (deref (ref x))
+	// simplify (deref (ref x)), also through the definition of a named term
 	pre := "(ref_" + s + " "
 	if strings.HasPrefix(t.S, pre) && balanced(t.S[len(pre):len(t.S)-1]) {
 		return Term{S: t.S[len(pre) : len(t.S)-1], T: p.Elem()}
+	}
+	if d := r.resolve(t.S); d != t.S && strings.HasPrefix(d, pre) && balanced(d[len(pre):len(d)-1]) {
+		inner := d[len(pre) : len(d)-1]
+		if len(inner) < 200 {
+			return Term{S: inner, T: p.Elem()}
+		}
 	}
 	return Term{S: "(deref_" + s + " " + t.S + ")", T: p.Elem()}
 }
